@@ -345,6 +345,11 @@ def correspond_and_check(ctx, items, stage):
             line = 'unparse ' + pyast.enc_module(tree)
         except pyast.OutOfModel as e:
             ctx.bump('out_of_model', str(e))
+            # outside the model is not outside the property: the oracle on the real code still applies
+            why = roundtrip_tree(tree)
+            ctx.count()
+            if why and why != 'recursion':
+                ctx.add_violation({'input': {'source': src}, 'what': why, 'found_by': stage, 'oracle': 'roundtrip', 'shapes': shapes_of(src)})
             continue
         except RecursionError:
             ctx.bump('out_of_model', 'recursion')
@@ -528,7 +533,7 @@ def run(ctx):
     # 3b. f-strings: fields starting with a brace, adversarial nested strings, escapes in format specs and nested f-strings
     from props import c12
     fs = []
-    for i, src in enumerate(c12.curly_field_sources() + c12.fstring_sources(ctx, ctx.scale(300, 4000)) + c12.nested_string_attacks()[::ctx.scale(6, 1)]):
+    for i, src in enumerate(c12.curly_field_sources() + c12.escape_merge_sources()[::ctx.scale(2, 1)] + c12.fstring_sources(ctx, ctx.scale(300, 4000)) + c12.nested_string_attacks()[::ctx.scale(6, 1)]):
         t = parse_or_none(src)
         if t is not None:
             fs.append(('fstring%d' % i, src, t))
